@@ -38,9 +38,10 @@ ROUNDS = [[], ["add"], ["add", "nope"], ["add", "add", "echo"], ["nope"]]
 
 def strategy(tier):
     again = st.sampled_from([False, False, True])
-    heal = st.fixed_dictionaries({"kind": st.just("heal"), "again": again, "max_retries": st.integers(0, 4),
+    exc = st.integers(0, 15)
+    heal = st.fixed_dictionaries({"kind": st.just("heal"), "again": again, "exc": exc, "max_retries": st.integers(0, 4),
                                   "script": st.lists(st.sampled_from(GEN + ["invalid", "fresh-invalid"]), min_size=1, max_size=6)})
-    swarm = st.fixed_dictionaries({"kind": st.just("swarm"), "again": again, "max_regen": st.integers(0, 4), "max_steps": st.integers(0, 4),
+    swarm = st.fixed_dictionaries({"kind": st.just("swarm"), "again": again, "exc": exc, "max_regen": st.integers(0, 4), "max_steps": st.integers(0, 4),
                                    "threshold": st.sampled_from([0.9, 0.9, 0.5, 0.0, 1.0]),
                                    "workers": st.lists(st.lists(st.sampled_from(WRK + ["fresh", "fresh"]), min_size=1, max_size=5), min_size=1, max_size=4)})
     tools = st.fixed_dictionaries({"kind": st.just("tools"), "again": again, "max_iter": st.integers(0, 4), "auto": st.sampled_from([True, True, True, False]),
@@ -53,6 +54,10 @@ def enumerate_cases(tier):
         for n in (1, 2, 3):
             for script in itertools.product(GEN, repeat=n):
                 yield {"kind": "heal", "max_retries": mr, "script": list(script)}
+    for exc in range(16):
+        for mr in (0, 1, 3):
+            for script in (["raise", "valid"], ["invalid", "raise", "valid"], ["raise", "raise", "valid"], ["invalid", "raise"]):
+                yield {"kind": "heal", "max_retries": mr, "script": script, "exc": exc}
     for mg in range(5):
         for ms in range(5):
             for n in (1, 2):
@@ -112,7 +117,8 @@ def _heal(case, out):
         calls.append(error_context)
         b = script[k % len(script)]
         if b == "raise":
-            raise RuntimeError("generator crashed")
+            from pbt.props._exc import make
+            raise make(case.get("exc", 0), "generator crashed")
         if b == "valid":
             return '{"name": "n%d", "value": %d}' % (k, k)
         if b == "invalid":
@@ -148,21 +154,18 @@ def _heal(case, out):
         # an earlier heal() on the same loop object must not eat into (or extend) the budget of the next one
         try:
             loop.heal("warm-up")
-        except RuntimeError:
+        except Exception:
             pass
         del calls[:]
         DistinctErrors.n = 0
     try:
         res = loop.heal("make a quote")
-    except RuntimeError as e:
+    except Exception as e:
         if "generator crashed" in str(e):
             out.label("generator-exception-propagated")
             if len(calls) > mr + 1:
                 out.fail("heal:too-many-generator-calls", "%d generator calls with max_retries=%d" % (len(calls), mr), {"case": case})
             return
-        out.fail("raise:RuntimeError:heal", "heal raised %s" % e, {"case": case})
-        return
-    except Exception as e:
         out.fail("raise:%s:heal" % type(e).__name__, "heal raised %s: %s" % (type(e).__name__, e), {"case": case})
         return
     d = {"case": case, "calls": len(calls), "outcome": res.outcome.value, "attempts": len(res.attempts)}
@@ -246,7 +249,8 @@ def _swarm(case, out):
             steps[name] += 1
             b = script[k % len(script)]
             if b == "raise":
-                raise RuntimeError("worker crashed")
+                from pbt.props._exc import make
+                raise make(case.get("exc", 0), "worker crashed")
             if b == "repeat":
                 o = "still thinking"
             elif b == "success":
@@ -265,22 +269,19 @@ def _swarm(case, out):
     if case.get("again"):
         try:
             sw.supervise("warm-up")
-        except RuntimeError:
+        except Exception:
             pass
         del factory_calls[:]
         steps.clear()
     try:
         res = sw.supervise("task")
-    except RuntimeError as e:
+    except Exception as e:
         if "worker crashed" in str(e):
             out.label("worker-exception-propagated")
             res = None
         else:
-            out.fail("raise:RuntimeError:supervise", "supervise raised %s" % e, {"case": case})
+            out.fail("raise:%s:supervise" % type(e).__name__, "supervise raised %s: %s" % (type(e).__name__, e), {"case": case})
             return
-    except Exception as e:
-        out.fail("raise:%s:supervise" % type(e).__name__, "supervise raised %s: %s" % (type(e).__name__, e), {"case": case})
-        return
     d = {"case": case, "factory_calls": len(factory_calls), "steps": dict(steps)}
     if len(factory_calls) > mg + 1:
         out.fail("swarm:too-many-workers", "%d workers spawned with max_regenerations=%d" % (len(factory_calls), mg), d)
